@@ -73,6 +73,7 @@ type Scenario struct {
 	Adapter *AdapterCase `json:"adapter,omitempty"`
 	Single  *SingleCase  `json:"single,omitempty"`
 	Merge   *MergeCase   `json:"merge,omitempty"`
+	Incl    *IncludeCase `json:"incl,omitempty"`
 	// StallMs: subscribers that stop receiving stay away at least this long before they cancel (writers parked on
 	// them stay parked: a collection write has no deadline of its own)
 	StallMs int `json:"stallMs,omitempty"`
